@@ -79,6 +79,7 @@ func c02Reference(mode string, rest []byte) tailObs {
 	cfg, be := modeConfig(mode)
 	in := hello(mode) + "MAIL FROM:<ok@a.example>\r\nRCPT TO:<ok@b.example>\r\nDATA\r\nx\r\n.\r\n" + string(rest)
 	o := h.RunS(cfg, be, h.OneSeg([]byte(in)), h.TermEOF)
+	o.Replies, o.ParseErr = ref.ParseRepliesLenient(o.Wire)
 	t, _ := tailOf(o, 6)
 	c02RefCache.Store(key, t)
 	return t
@@ -115,6 +116,9 @@ func evalC02(c C02Case) *h.Finding {
 	if f := o.Sanity("c02", desc); f != nil {
 		return f
 	}
+	// lines after an early end marker are executed as (unknown) commands, and the server echoes them,
+	// control octets included: the reply text is not C02's subject, so the wire is parsed leniently
+	o.Replies, o.ParseErr = ref.ParseRepliesLenient(o.Wire)
 	if o.ParseErr != nil {
 		return h.F("c02-bad-wire", "%s: %v", desc, o.ParseErr)
 	}
